@@ -109,6 +109,40 @@ impl C10 {
             Err(p) => out.push(d("usize/panic", case, p)),
         }
     }
+    /// witness encodings whose two vectors have n and m entries (any n, m): the decoder may refuse them, but what it
+    /// accepts must re-encode to the same bytes, directly and through the JSON codec
+    fn witness_shape(&self, n: usize, m: usize, out: &mut Vec<Discrepancy>) {
+        let mut ci = default_inputs();
+        ci.path = (0..n as u64).map(|k| big(1000 + k)).collect();
+        ci.bits = (0..m).map(|k| big((k % 2) as u64)).collect();
+        let case = json!({"kind":"witness-shape","n":n,"m":m});
+        let bytes = witness_bytes(&ci);
+        let cls = if n == m { "equal-lengths" } else { "unequal-lengths" };
+        let r = guard(|| {
+            let mut o = vec![];
+            if let Ok((w, _)) = deserialize_witness(&bytes) {
+                match serialize_witness(&w) {
+                    Ok(enc) if enc == bytes => {}
+                    Ok(_) => o.push(d(&format!("witness/{cls}/re-encode-differs"), case.clone(), format!("a witness encoding with {n} path elements and {m} direction values decodes, but encoding the decoded witness gives other bytes"))),
+                    Err(_) => {}
+                }
+                if let Ok(j) = rln_witness_to_json(&w) {
+                    if let Ok(Ok(w2)) = guard(|| rln_witness_from_json(j.clone())) {
+                        match serialize_witness(&w2) {
+                            Ok(enc) if enc == bytes => {}
+                            Ok(_) => o.push(d(&format!("witness/{cls}/json-re-encode-differs"), case.clone(), format!("{n} path elements and {m} direction values: bytes -> witness -> JSON -> witness -> bytes changes the bytes"))),
+                            Err(_) => {}
+                        }
+                    }
+                }
+            }
+            o
+        });
+        match r {
+            Ok(o) => out.extend(o),
+            Err(p) => out.push(d("witness/shape/panic", case, p)),
+        }
+    }
     /// witness encodings: layout, value decoding (through the decimal JSON export), JSON round trip, prefixes
     fn witness(&self, ci: &CircuitInputs, prefixes: bool, out: &mut Vec<Discrepancy>) {
         let case = json!({"kind":"witness","inputs":ci.to_json(),"prefixes":prefixes});
@@ -301,6 +335,7 @@ impl Prop for C10 {
                     self.witness(&ci, case["prefixes"].as_bool().unwrap_or(true), &mut out)
                 }
             }
+            "witness-shape" => self.witness_shape(case["n"].as_u64().unwrap_or(20) as usize, case["m"].as_u64().unwrap_or(20) as usize, &mut out),
             "api" => {
                 self.api_bytes(&mut out);
             }
@@ -352,13 +387,20 @@ impl Prop for C10 {
         for r in res {
             out.extend(r);
         }
+        // every pair of vector lengths
+        for a in [0usize, 1, 2, 3, 19, 20, 21, 40] {
+            for b in [0usize, 1, 2, 3, 19, 20, 21, 40] {
+                self.witness_shape(a, b, &mut out);
+                n += 1;
+            }
+        }
         n += self.requests(&mut out);
         n += self.api_bytes(&mut out);
         findings.report_all(out);
         ev.set("evaluations", json!(n));
         ev.set("distinct_nontrivial", json!(n));
         ev.set("exhaustive", json!(true));
-        ev.set("rule", json!("for every value of each encodable type over its boundary alphabet (Fr: F* + limb boundaries + byte-width boundaries 2^k-1/2^k for k in {8,16,24,248..253} + randoms; Vec<Fr> of lengths {0,1,2,3,20,21,64}; byte vectors of lengths {0,1,2,7,8,9,255,256,257,65536}; usize incl. 2^32 boundaries and 2^63; witnesses of the one-deviation grid; proving / verification requests; identity tuples): (1) zerokit's encoder output equals the independent reference encoder byte for byte, (2) zerokit's decoder applied to the reference encoding returns the value (witness values are read back through the decimal JSON export), (3) JSON witness codec round trip, (4) every strict prefix and +1/+32 trailing bytes of a witness encoding are refused, (5) bytes written by RLN::get_root, get_leaf, get_proof, get_empty_leaves_indices, get_serialized_rln_witness, key_gen equal the reference encoding of the ideal-tree values; every value is a distinct case"));
+        ev.set("rule", json!("for every value of each encodable type over its boundary alphabet (Fr: F* + limb boundaries + byte-width boundaries 2^k-1/2^k for k in {8,16,24,248..253} + randoms; Vec<Fr> of lengths {0,1,2,3,20,21,64}; byte vectors of lengths {0,1,2,7,8,9,255,256,257,65536}; usize incl. 2^32 boundaries and 2^63; witnesses of the one-deviation grid; proving / verification requests; identity tuples): (1) zerokit's encoder output equals the independent reference encoder byte for byte, (2) zerokit's decoder applied to the reference encoding returns the value (witness values are read back through the decimal JSON export), (3) JSON witness codec round trip, (3b) witness encodings with every pair of vector lengths out of {0,1,2,3,19,20,21,40}: refused, or re-encoded to the same bytes directly and through JSON, (4) every strict prefix and +1/+32 trailing bytes of a witness encoding are refused, (5) bytes written by RLN::get_root, get_leaf, get_proof, get_empty_leaves_indices, get_serialized_rln_witness, key_gen equal the reference encoding of the ideal-tree values; every value is a distinct case"));
         ev.sample(json!({"kind":"fr","v":"2^248"}));
         ev.sample(json!({"kind":"vec_fr","len":0}));
         ev.sample(json!({"kind":"witness","inputs":cases[cases.len() / 2].1.to_json()}));
